@@ -285,6 +285,100 @@ pub fn truncated(rng: &mut Rng) -> Made {
 }
 
 // ---------------------------------------------------------------------------------
+// Literal escapes
+// ---------------------------------------------------------------------------------
+
+/// Class `escapes`: string, f-string and char literals whose contents are a random
+/// sequence over {ASCII text, 2/3/4-byte characters, valid escapes, INVALID escapes,
+/// doubled braces `{{` `}}`, interpolations, lone braces, line continuations, raw line
+/// ends}. An error (or warning) about an escape is located by arithmetic on offsets
+/// inside the literal; everything in front of it that changes length when the literal is
+/// decoded (doubled braces, earlier escapes, multi-byte text, earlier interpolations)
+/// is what such arithmetic gets wrong. 1-4 literals per program, in several syntactic
+/// places, optionally with a second file so that citations name the right file.
+pub fn escapes(rng: &mut Rng) -> Made {
+    const VALID: [&str; 12] = ["\\n", "\\t", "\\r", "\\0", "\\\\", "\\\"", "\\'", "\\x41", "\\x7f", "\\u{e9}", "\\u{1F600}", "\\u{0}"];
+    const INVALID: [&str; 16] = [
+        "\\q", "\\ ", "\\é", "\\東", "\\x4", "\\xZZ", "\\x80", "\\xé1", "\\u", "\\u{}", "\\u{110000}", "\\u{D800}", "\\u{12", "\\u{zz}", "\\u{1234567}", "\\U0041",
+    ];
+    let mut tags = BTreeSet::new();
+    let piece = |rng: &mut Rng, fstr: bool, tags: &mut BTreeSet<String>| -> String {
+        let n = 1 + rng.usize(8);
+        let mut s = String::new();
+        let mut had_invalid = false;
+        for _ in 0..n {
+            match rng.below(if fstr { 16 } else { 12 }) {
+                0 | 1 => s.push_str(*rng.pick::<&str>(&["a", "xy", " ", "Roto", "0", "-"])),
+                2..=4 => s.push_str(TEXT[rng.usize(TEXT.len())]),
+                5 => s.push_str(XID_START[rng.usize(XID_START.len())]),
+                6 | 7 => s.push_str(VALID[rng.usize(VALID.len())]),
+                8 | 9 => {
+                    s.push_str(INVALID[rng.usize(INVALID.len())]);
+                    had_invalid = true;
+                }
+                10 => s.push_str(*rng.pick::<&str>(&["\\\n", "\\\n   ", "\\\r\n", "\n"])),
+                11 => s.push_str(*rng.pick::<&str>(&["'", "\u{a0}", "\u{2028}", "\t"])),
+                12 | 13 => s.push_str(*rng.pick::<&str>(&["{{", "}}", "{{}}", "}}{{"])),
+                14 => s.push_str(*rng.pick::<&str>(&["{x}", "{1 + 2}", "{\"é\"}", "{ x }", "{f\"{x}\"}"])),
+                _ => s.push_str(*rng.pick::<&str>(&["{", "}", "{}", "{é}", "{x"])),
+            }
+        }
+        tags.insert(format!("escapes:invalid-escape:{had_invalid}"));
+        s
+    };
+    let n_lits = 1 + rng.usize(4);
+    let mut body = String::from("fn main(x: i32) -> String {\n");
+    let mut detail = String::new();
+    for i in 0..n_lits {
+        let kind = rng.below(10);
+        let lit = match kind {
+            0..=4 => {
+                tags.insert("escapes:in:f-string".to_string());
+                detail.push('f');
+                format!("f\"{}\"", piece(rng, true, &mut tags))
+            }
+            5..=7 => {
+                tags.insert("escapes:in:string".to_string());
+                detail.push('s');
+                format!("\"{}\"", piece(rng, false, &mut tags))
+            }
+            _ => {
+                tags.insert("escapes:in:char".to_string());
+                detail.push('c');
+                let c = match rng.below(4) {
+                    0 => VALID[rng.usize(VALID.len())].to_string(),
+                    1 | 2 => INVALID[rng.usize(INVALID.len())].to_string(),
+                    _ => XID_START[rng.usize(XID_START.len())].to_string(),
+                };
+                format!("'{c}'.to_string()")
+            }
+        };
+        match rng.below(5) {
+            0 => body.push_str(&format!("    let v{i} = {lit};\n")),
+            1 => body.push_str(&format!("    let v{i}: String = {lit}; // {}\n", text(rng))),
+            2 => body.push_str(&format!("    /* {} */ let v{i} = {lit} + {lit};\n", text(rng))),
+            3 => body.push_str(&format!("    let v{i} = if x > {i} {{ {lit} }} else {{ \"\" }};\n")),
+            _ => body.push_str(&format!("    let v{i} = {lit}.to_uppercase();\n")),
+        }
+    }
+    body.push_str("    v0\n}\n");
+    if rng.chance(1, 3) {
+        // multi-byte material in front of the function moves byte and character offsets apart
+        body = format!("// {} {}\n{body}", text(rng), text(rng));
+        tags.insert("escapes:multibyte-comment-before".to_string());
+    }
+    let files = if rng.chance(1, 4) {
+        tags.insert("escapes:tree".to_string());
+        let other = format!("// {}\nfn g() -> i32 {{ 1 }}\n", text(rng));
+        if rng.bool() { vec![("pkg".to_string(), other), ("a".to_string(), body)] } else { vec![("pkg".to_string(), body), ("é".to_string(), other)] }
+    } else {
+        tags.insert("escapes:single-file".to_string());
+        vec![("pkg".to_string(), body)]
+    };
+    Made { detail: format!("literals={detail}"), hint: "totality/literal-escapes".into(), tags: tags.into_iter().collect(), files }
+}
+
+// ---------------------------------------------------------------------------------
 // Inference stress
 // ---------------------------------------------------------------------------------
 
